@@ -138,6 +138,67 @@ func runC04(c *Ctx) {
 		// table loop): evaluating the path conditions on the constants
 		found := false
 		gp := c.pkg("generator")
+		// the function that holds the emitting call may be a phase of the value writer (declare the variable / write it):
+		// the writer the dispatcher hands the attribute to is then its only caller, provided that caller writes nothing
+		// on the paths that do not go through it
+		takesAttrParam := func(gf *GFunc) (attr, name bool) {
+			for _, prm := range gf.Decl.Type.Params.List {
+				if t := g.info.TypeOf(prm.Type); t != nil {
+					if strings.HasSuffix(t.String(), "parser/v2.ExpressionAttribute") {
+						attr = true
+					}
+					if t.String() == "string" {
+						name = true
+					}
+				}
+			}
+			return
+		}
+		for lift := 0; lift < 3; lift++ {
+			if attr, _ := takesAttrParam(urlWriter); attr {
+				break
+			}
+			var callers []*GFunc
+			for _, gf := range g.order {
+				if gf != urlWriter && containsCallToObj(g.info, gf.Decl.Body, urlWriter.Obj) {
+					callers = append(callers, gf)
+				}
+			}
+			if len(callers) != 1 || usedAsValue(gp, urlWriter.Obj) {
+				break
+			}
+			cand := callers[0]
+			if attr, name := takesAttrParam(cand); !attr || name {
+				break
+			}
+			den := &denum{info: g.info, pkg: gp.Types, inits: map[types.Object]ast.Expr{}, limit: 20000, opaqueLoops: true}
+			den.finish(den.run(cand.Decl.Body.List, []dstate{{env: map[types.Object]ast.Expr{}}}))
+			always := den.undecided == ""
+			for _, pth := range den.paths {
+				through, writes := false, false
+				for _, st := range pth.Trace {
+					ast.Inspect(st, func(y ast.Node) bool {
+						if call, ok := y.(*ast.CallExpr); ok {
+							if fn := calleeOf(g.info, call); fn != nil {
+								if types.Object(fn) == urlWriter.Obj {
+									through = true
+								} else if cg := g.funcs[fn]; cg != nil && cg.Emits || g.emitterKind(call) != "" {
+									writes = true
+								}
+							}
+						}
+						return true
+					})
+					if writes && !through {
+						always = false
+					}
+				}
+			}
+			if !always {
+				break
+			}
+			urlWriter = cand
+		}
 		// the URL treatment may also be DATA: a package-level descriptor (a struct literal one of whose text fields
 		// names templ.SafeURL) that a selector function returns for the URL attributes and one emitter interprets
 		var urlDesc types.Object
